@@ -208,6 +208,20 @@ fn fam_reject() -> Report {
             ("Some(1) ^@ >>> f", "`>>>` after a non-wrapper operator (^@)"),
             ("Some(1) <| >>> f", "`>>>` after a non-wrapper operator (<|)"),
             ("Some(1) |> >>> <<< >>> f", "`>>>` combined with `<<<`"),
+            // multi-operand operators: an operator (with its `~` / `>>>` / `<<<`) where the `,` between operands belongs
+            ("v ^@ 0 <<< , f", "`<<<` between the operands of ^@"),
+            ("v ^@ 0 ~=> , f", "`~=>` between the operands of ^@"),
+            ("v ^@ 0 |> >>> , f", "`|> >>>` between the operands of ^@"),
+            ("v ^@ 0 |> , f", "`|>` between the operands of ^@"),
+            ("v ?^@ 0 -> , f", "`->` between the operands of ?^@"),
+            ("v ?^@ 0 ~?? , f", "`~??` between the operands of ?^@"),
+            ("v <-> u8, u16 -> , Vec<u8>, Vec<u16>", "`->` between the operands of <->"),
+            ("v <-> u8 <<< , u16, Vec<u8>, Vec<u16>", "`<<<` between the operands of <->"),
+            ("v <-> u8, u16, Vec<u8> ~|> , Vec<u16>", "`~|>` between the operands of <->"),
+            ("v ^@ 0", "one operand of two"),
+            ("v ^@ 0 |> f", "one operand of two, then an operator"),
+            ("v <-> u8, u16", "two operands of four"),
+            ("v <-> u8, u16, Vec<u8> |> f", "three operands of four, then an operator"),
             ("let (a, b) = Some(1) |> f", "non-identifier `let` pattern (tuple)"),
             ("let Some(a) = Some(1) |> f", "non-identifier `let` pattern (tuple struct)"),
             ("let _ = Some(1) |> f", "non-identifier `let` pattern (wildcard)"),
